@@ -229,7 +229,7 @@ _reg(Spec("index_decoder", "dec", _mk_index_decoder, _index_sample))
 
 def make_with_sample(name, rng, **kw):
     """Returns (coder, data, init_ret). Handles coders whose constructor depends on the sample."""
-    c = lz.Coder(kw.pop("allocator", None))
+    c = kw.pop("coder", None) or lz.Coder(kw.pop("allocator", None))   # coder=: re-initialise an existing handle
     if name == "block_decoder":
         hdr, rest, check = _block_parts(rng)
         r = _mk_block_decoder(c, header=hdr, check=check)
